@@ -148,6 +148,13 @@ def _skolemize_goal(goal, ctr):
   return goal
 
 
+def _fresh_consts(q, ctr):
+  n = q.num_vars()
+  consts = [z3.Const(f"sk!{ctr[0] + i}!{q.var_name(i)}", q.var_sort(i)) for i in range(n)]
+  ctr[0] += n
+  return consts
+
+
 def _index_terms(t, out, seen, depth_limit=4):
   """ground Int-sorted arguments of uninterpreted functions (candidate instantiation terms)"""
   stack = [(t, 0)]
@@ -193,12 +200,24 @@ def _is_ground(t):
   return True
 
 
-def instantiate_and_check(assumptions, goal, timeout_ms=10000, rounds=2, max_inst=4000, seed=0):
+def instantiate_and_check(assumptions, goal, timeout_ms=10000, rounds=2, max_inst=4000, seed=0, small_first=False):
   """Refute (assumptions and not goal) with the universally quantified hypotheses replaced by
   their instances at the ground index terms of the problem (goal-directed instantiation).
   Instances are consequences of the hypotheses, so `unsat` here is a proof; anything else
   decides nothing."""
   ctr = [0]
+  # goal of the form (H -> G) with a quantified antecedent (an invariant that is itself an
+  # implication from a universally quantified premise): prove G from assumptions + H -- the same sequent
+  assumptions = list(assumptions)
+  while True:
+    if z3.is_quantifier(goal) and goal.is_forall():
+      goal = _skolemize_goal(goal, ctr) if not z3.is_implies(goal.body()) else z3.substitute_vars(goal.body(), *reversed(_fresh_consts(goal, ctr)))
+      continue
+    if z3.is_implies(goal) and _has_quantifier(goal.children()[0]):
+      assumptions.append(goal.children()[0])
+      goal = goal.children()[1]
+      continue
+    break
   g = _skolemize_goal(goal, ctr)
   ground, quants = [], []
   for a in assumptions:
@@ -207,8 +226,16 @@ def instantiate_and_check(assumptions, goal, timeout_ms=10000, rounds=2, max_ins
         quants.append(c)
       elif z3.is_implies(c) and z3.is_quantifier(c.children()[1]) and c.children()[1].is_forall():
         quants.append(c)  # guard -> forall
+      elif z3.is_implies(c) and z3.is_quantifier(c.children()[0]) and c.children()[0].is_forall() and not _has_quantifier(c.children()[1]):
+        # (forall s. B(s)) -> C  is  exists s. (B(s) -> C): the witness becomes a fresh constant
+        q0 = c.children()[0]
+        ground.append(z3.Implies(z3.substitute_vars(q0.body(), *reversed(_fresh_consts(q0, ctr))), c.children()[1]))
       else:
         ground.append(c)
+  if small_first:
+    # one-variable hypotheses first, so that the instance budget is not used up by the pairs of a
+    # two-variable hypothesis before the others are instantiated at all
+    quants.sort(key=lambda q: (q.children()[1] if z3.is_implies(q) else q).num_vars())
   insts = []
   cands = {}
   seen = set()
@@ -381,34 +408,67 @@ def cone_of_influence(assumptions, goal):
   return [c for (ss, c), k in zip(syms, keep) if k]
 
 
-def check(assumptions, goal, timeout_ms=10000, seed=0, want_model=True, backends=("z3api", "z3old", "cvc5"), cone=True):
-  """returns dict(status, backend, time_s, model?)"""
+def check(assumptions, goal, timeout_ms=10000, seed=0, want_model=True, backends=("z3api", "z3old", "cvc5"), cone=True, sat_first=False):
+  """returns dict(status, backend, time_s, model?)
+
+  Portfolio, in this order, each answer `sat`/`unsat` being final: z3 5.1 (API) with its default arithmetic solver, the
+  same with the simplex-based one (arith.solver=2: decides in milliseconds some div/mod-heavy integer queries on which
+  the default needs 2-9 s depending on the seed, and vice versa), then /usr/bin/z3 4.8.12 and cvc5 on the SMT-LIB text
+  with three times the budget (they are only reached after two time-outs, and a generous budget there is what keeps a
+  verdict from flipping to `unknown` when all cores are busy). sat_first (vacuity canaries: a model is expected)
+  starts with a short API attempt followed by z3 4.8."""
   t0 = time.time()
   if cone:
     assumptions = cone_of_influence(assumptions, goal)
-  s = z3.Solver()
-  s.set("timeout", int(timeout_ms))
-  s.set("random_seed", int(seed) % (2**31))
-  for a in assumptions:
-    s.add(a)
-  s.add(z3.Not(goal))
-  r = s.check()
-  dt = time.time() - t0
-  if r == z3.unsat:
-    return {"status": "unsat", "backend": "z3-5.1(api)", "time_s": dt}
-  if r == z3.sat:
-    res = {"status": "sat", "backend": "z3-5.1(api)", "time_s": dt}
-    if want_model:
-      res["model"] = _model_to_dict(s.model())
-      res["_model_obj"] = s.model()
-    return res
+  configs = [("z3-5.1(api)", {}, timeout_ms), ("z3-5.1(api, arith.solver=2)", {"arith.solver": 2}, timeout_ms)]
+  if sat_first:
+    # model search is heavy-tailed in the API (0.05 s .. > 6 s on the same query, by seed) while z3 4.8 answers the
+    # same queries in under a second: short API attempt, then z3 4.8 with a generous budget, then the full portfolio
+    configs = [("z3-5.1(api)", {}, min(timeout_ms, 2000)), ("z3old", None, max(3 * timeout_ms, 30000))] + configs
+  if "z3api" not in backends:
+    configs = []
+  s = None
+  reason = None
+  for name, cfg, tmo in configs:
+    if cfg is None:
+      rr = run_external(name, s.to_smt2(), tmo)
+      if rr["status"] in ("unsat", "sat"):
+        rr["time_s"] = time.time() - t0
+        return rr
+      continue
+    s = z3.Solver()
+    s.set("timeout", int(tmo))
+    s.set("random_seed", int(seed) % (2**31))
+    for k, v in cfg.items():
+      s.set(k, v)
+    for a in assumptions:
+      s.add(a)
+    s.add(z3.Not(goal))
+    r = s.check()
+    dt = time.time() - t0
+    if r == z3.unsat:
+      return {"status": "unsat", "backend": name, "time_s": dt}
+    if r == z3.sat:
+      res = {"status": "sat", "backend": name, "time_s": dt}
+      if want_model:
+        res["model"] = _model_to_dict(s.model())
+        res["_model_obj"] = s.model()
+      return res
+    if reason is None:
+      reason = s.reason_unknown()
+    if tuple(backends) == ("z3api",):
+      break  # callers that ask for the API only use it as one cheap attempt among several
+  if s is None:
+    s = z3.Solver()
+    for a in assumptions:
+      s.add(a)
+    s.add(z3.Not(goal))
   # unknown: try the other back ends on the SMT-LIB text
   smt2 = s.to_smt2()
-  reason = s.reason_unknown()
   for be in backends:
     if be == "z3api":
       continue
-    rr = run_external(be, smt2, timeout_ms)
+    rr = run_external(be, smt2, max(3 * timeout_ms, 30000))
     if rr["status"] in ("unsat", "sat"):
       rr["time_s"] = time.time() - t0
       rr["first_unknown"] = reason
